@@ -103,6 +103,8 @@ func c12Life(c *mon.Ctx, r *mon.Rand) {
 	desc := map[string]interface{}{"protocol": protoName(proto), "queue": opts.MaxQueueSize, "max_packet": opts.MaxPacketSizeBytes, "common_tags": nCommon,
 		"traffic": traffic, "identities": nIdents, "calls": nCalls, "bucket_tag_names": fmt.Sprintf("%q/%q", opts.HistogramBucketIDName, opts.HistogramBucketName)}
 	c.LogCase(fmt.Sprint(desc))
+	stopWatch := c.Watchdog(300*time.Second, "m3-call-or-close-does-not-return", desc)
+	defer stopWatch()
 	maxPacket := int(opts.MaxPacketSizeBytes)
 	if maxPacket == 0 {
 		maxPacket = int(m3.DefaultMaxPacketSize)
